@@ -53,6 +53,8 @@ pub fn run(cfgs: &[String], cases_file: &str, seed: u64, sample: usize, out_dir:
         "..", "../..", "/..", "../zc", "../../zc", "/../zc", "//zc", "///zc", "a/../../zc", "..//zc", "./../zc", "a/..//../zc", "//zc/..", "/./../zr/../zc",
         "../zd/zc", "//zd/zc", "../a", "//a", "..//a", "b/../../a", "/..//..//zc", "a/b/../../../zc", "%2e%2e/zc", "..\\zc", "....//zc", ".../zc", "//", "///", "/./", "..a/../zc",
         "\u{2025}/zc", "a/./../..", "../zr", "../zr/a", "//zr/../zc",
+        // other things a backend might mistake for a separator or a parent reference
+        "..\\..\\zc", "a\\..\\..\\zc", "/..\\zc", "..\\zd\\zc", "b\\a", "..;/zc", "..%2fzc", "..\u{2215}zc", "..\u{ff0f}zc", "zc\0", "a\0/../zc", "\0", "~/zc", "$HOME/zc", "..\\a",
     ]
     .iter()
     .map(|s| s.to_string())
